@@ -19,7 +19,7 @@ ASSUMPTIONS = ['recursive cases restricted to contraction ratio <= 0.9 (measured
                'use tol 1e-12 and are compared at 1e-8, float32 runs tol 1e-5 compared at 1e-3',
                'known finding K05: j_precompute=True on rules outside the "clean" class (see KNOWN_FINDINGS.json)']
 CHUNK = 1
-ALPHA = [Fraction(0), Fraction(1, 4), Fraction(1, 2)]
+ALPHA = [Fraction(0), Fraction(1, 4), Fraction(1)]       # weight exactly one: 0.0 in log space
 METHODS = ('fixed-point', 'newton', 'linear')
 CASE_TIMEOUT_S = 600.0
 
